@@ -49,6 +49,11 @@ class BaseMilstein(base_solver.BaseSDESolver, metaclass=abc.ABCMeta):
     def y_prime_f_factor(self, dt, f):
         raise NotImplementedError
 
+    def g_difference(self, t0, y0, dt, sqrt_dt, f, g, g_):
+        """Derivative-free approximation of 2 * sqrt(dt) * (dg/dy g): a forward difference along g * sqrt(dt)."""
+        y0_prime = y0 + self.y_prime_f_factor(dt, f) + g_ * sqrt_dt
+        return self.sde.g(t0, y0_prime) - g
+
     def step(self, t0, t1, y0, extra0):
         del extra0
         dt = t1 - t0
@@ -61,10 +66,9 @@ class BaseMilstein(base_solver.BaseSDESolver, metaclass=abc.ABCMeta):
             sqrt_dt = dt.sqrt()
             # TODO: This y_prime_f_factor looks unnecessary: whether it's there or not we get the correct Taylor
             #  expansion. I've (Patrick) not been able to find a reference making clear why it's sometimes included.
-            y0_prime = y0 + self.y_prime_f_factor(dt, f) + g_ * sqrt_dt
-            g_prime = self.sde.g(t0, y0_prime)
+            g_difference = self.g_difference(t0, y0, dt, sqrt_dt, f, g, g_)
             g_prod_I_k = self.sde.prod(g, I_k)
-            gdg_prod = self.sde.prod(g_prime - g, v) / (2 * sqrt_dt)
+            gdg_prod = self.sde.prod(g_difference, v) / (2 * sqrt_dt)
         else:
             f = self.sde.f(t0, y0)
             g_prod_I_k, gdg_prod = self.sde.g_prod_and_gdg_prod(t0, y0, I_k, 0.5 * v)
@@ -92,3 +96,9 @@ class MilsteinStratonovich(BaseMilstein):
 
     def y_prime_f_factor(self, dt, f):
         return 0.
+
+    def g_difference(self, t0, y0, dt, sqrt_dt, f, g, g_):
+        # The forward difference is off by 1/2 d^2g/dy^2 g^2 dt. In the Ito scheme that error multiplies I_k^2 - dt, of
+        # mean zero; here it multiplies I_k^2, of mean dt, which leaves a local bias of order dt^1.5 and would reduce the
+        # strong order from 1.0 to 0.5. The central difference has no such term.
+        return 0.5 * (self.sde.g(t0, y0 + g_ * sqrt_dt) - self.sde.g(t0, y0 - g_ * sqrt_dt))
